@@ -55,6 +55,8 @@ def validate(number):
     """Check if the number is valid. This checks the length, format and check
     digits."""
     number = compact(number)
+    if len(number) != 20:
+        raise InvalidLength()
     mod_97_10.validate(number)
     return number
 
